@@ -112,6 +112,9 @@ class MempoolEngine:
                 fee = max(0, sum(v for _, v in want_in) - sum(v for _, v in want_out))
                 if tx.fee != fee and not genlike:
                     self.viol('mempool/wrong-fee', f'tx {tx_hash.hex()[:16]} fee {tx.fee} != {fee}')
+                if tx.fee < 0:
+                    # also for generation-like inputs, whose value is unknown: a fee is never negative
+                    self.viol('mempool/negative-fee', f'tx {tx_hash.hex()[:16]} recorded with fee {tx.fee}')
             for hx, _v in list(tx.in_pairs or ()) + list(tx.out_pairs):
                 if tx_hash not in hashXs.get(hx, ()):
                     self.viol('mempool/index-not-inverse', f'tx {tx_hash.hex()[:16]} touches {hx.hex()} but is not indexed under it')
